@@ -140,10 +140,36 @@ Theorem C13_written_copies_same_violations :
 Proof. exact written_copies_same_violations. Qed.
 Print Assumptions C13_written_copies_same_violations.
 
+(* (4) for arbitrary files the sentence is false: a link or an unknown feature
+   is not copied, and dclab-compress completes the metadata again (a wrong
+   event count, ROI or sample count is repaired).  The harness checks that
+   the copies are exactly the predicted ones. *)
+Theorem C13_repack_same_violations_refuted :
+  exists f : file, f_extlink f = true
+                   /\ violations (copy_model f) <> violations f.
+Proof. exact repack_same_violations_refuted. Qed.
+Print Assumptions C13_repack_same_violations_refuted.
+
+Theorem C13_compress_same_violations_refuted :
+  exists f g : file,
+    f_extlink f = false /\ f_unknown f = []
+    /\ violations f = Some [FeatureSize 0; FeatureSize 1]
+    /\ compress_model f = Some g /\ violations g = Some [].
+Proof. exact compress_same_violations_refuted. Qed.
+Print Assumptions C13_compress_same_violations_refuted.
+
+Theorem C13_compress_same_violations_partial :
+  forall f : file,
+    f_extlink f = false -> (forall u, In u (f_unknown f) -> u = 0) ->
+    compress_model f = Some (copy_model f) ->
+    exists g, compress_model f = Some g /\ violations g = violations f.
+Proof. exact compress_same_violations_partial. Qed.
+Print Assumptions C13_compress_same_violations_partial.
+
 (* ... and the cues do not depend on the storage order of the features. *)
 Theorem C13_violations_order_independent :
   forall (f g : file) (n : Z),
-    same_content f g -> f_evcount f = Some n ->
+    same_content f g -> f_evcount f = Some n -> 0 <= n ->
     exists cf cg, violations f = Some cf /\ violations g = Some cg
                   /\ Permutation cf cg.
 Proof. exact violations_order_independent. Qed.
@@ -155,7 +181,7 @@ Print Assumptions C13_violations_order_independent.
 
 (* len(ds) is the stored event count *)
 Theorem C13_length_is_event_count :
-  forall (f : file) (n : Z), f_evcount f = Some n ->
+  forall (f : file) (n : Z), f_evcount f = Some n -> 0 <= n ->
     lends f = Some n /\ violations f = Some (violations_n f n).
 Proof. exact length_is_event_count. Qed.
 Print Assumptions C13_length_is_event_count.
@@ -289,8 +315,14 @@ Theorem C13_external_data_flagged :
 Proof. exact external_data_flagged. Qed.
 Print Assumptions C13_external_data_flagged.
 
-(* The checker produces a cue list for every file that stores a feature (it
-   does not raise), and a missing event count is then reported. *)
+(* The checker produces a cue list for every abstract file that stores a
+   feature, and a missing or negative event count is then reported.  Guard of
+   the abstraction (harness/c13.py:abstract): every member of /events is an
+   HDF5 object of the kind of its feature (dataset, or group for trace and
+   contour) and the groups of the file form a tree; for a scalar stored as a
+   group, "trace" stored as a dataset, a group named mask, an empty contour
+   group or a cycle of hard links the real checker raises (generated as
+   "outside the model", see DESIGN). *)
 Theorem C13_checker_total :
   forall f : file,
     (f_feats f <> [] \/ f_traces f <> []) -> exists cs, violations f = Some cs.
@@ -303,6 +335,13 @@ Theorem C13_missing_event_count_flagged :
     exists cs, violations f = Some cs /\ In (MissingKey k_event_count) cs.
 Proof. exact missing_event_count_flagged. Qed.
 Print Assumptions C13_missing_event_count_flagged.
+
+Theorem C13_negative_event_count_flagged :
+  forall (f : file) (cs : list cue), violations f = Some cs ->
+  forall v : Z, f_evcount f = Some v -> v < 0 ->
+    In (NonPositive k_event_count) cs.
+Proof. exact negative_event_count_flagged. Qed.
+Print Assumptions C13_negative_event_count_flagged.
 
 Theorem C13_external_link_flagged :
   forall (f : file) (cs : list cue), violations f = Some cs ->
